@@ -74,6 +74,7 @@ fn main() {
     let mut rep = match args.family.as_str() {
         "c19" => c19::run(&args, &mut model),
         "c13" => conc::run_c13(&args, &mut model),
+        "c15" => conc::run_c15(&args, &mut model),
         f => {
             eprintln!("unknown family {}", f);
             std::process::exit(2);
